@@ -31,8 +31,8 @@ inline W run_exact(int variant, const typename BG<W>::Graph &g, WMapT w, std::li
 }
 
 #ifdef VF_WITH_APPROX
-template<class W, class OutIt>
-inline W run_approx_it(int variant, const typename BG<W>::Graph &g, typename BG<W>::WMap w, std::size_t k, OutIt out) {
+template<class W, class WMapT, class OutIt>
+inline W run_approx_it(int variant, const typename BG<W>::Graph &g, WMapT w, std::size_t k, OutIt out) {
     switch (variant) {
     case 0: return parmcb::approx_mcb_sva_signed(g, w, k, out);
     case 1: return parmcb::approx_mcb_sva_fvs_trees(g, w, k, out);
@@ -45,8 +45,8 @@ inline W run_approx_it(int variant, const typename BG<W>::Graph &g, typename BG<
     }
     abort();
 }
-template<class W>
-inline W run_approx(int variant, const typename BG<W>::Graph &g, typename BG<W>::WMap w, std::size_t k,
+template<class W, class WMapT>
+inline W run_approx(int variant, const typename BG<W>::Graph &g, WMapT w, std::size_t k,
         std::list<std::list<typename BG<W>::Edge>> &out) {
     return run_approx_it<W>(variant, g, w, k, std::back_inserter(out));
 }
